@@ -345,8 +345,14 @@ def t_pipeline(sess, system, n_grains):
             sess.prove_nf(f"{tag}: pair ({i},{j}): <q_i r^-1, q_j r^-1> = <q_i, q_j>: datum unchanged by a rigid rotation of the sample frame", p.pc, rules, [dot_rot], [dot])
             sess.prove(f"{tag}: pair ({i},{j}): datum unchanged by reordering the grains", p.pc, eq(perm[0][kk].arg, d.arg))
         else:
-            sess.prove_nf(f"{tag}: pair ({i},{j}): datum unchanged by a rigid rotation of the sample frame", p.pc, rules, [rot[0][k].arg], [d.arg], tags=optional)
-            sess.prove_nf(f"{tag}: pair ({i},{j}): datum unchanged by reordering the grains", p.pc, rules, [perm[0][kk].arg], [d.arg], tags=optional)
+            q1 = sess.prove_nf(f"{tag}: pair ({i},{j}): datum unchanged by a rigid rotation of the sample frame", p.pc, rules, [rot[0][k].arg], [d.arg], tags=optional)
+            if q1.verdict == "sat":
+                # on the pinned tree this is the pipeline-level face of the recorded operator defects of this system
+                sess.cex.append({"name": q1.name, "replay": "vf.props.C14:replay_frame", "case": {"system": system},
+                                 "cls": {"kind": "misorientation datum of the real pipeline depends on the sample frame", "system": system}})
+            q2 = sess.prove_nf(f"{tag}: pair ({i},{j}): datum unchanged by reordering the grains", p.pc, rules, [perm[0][kk].arg], [d.arg], tags=optional)
+            if q2.verdict == "sat":
+                sess.cex.append({"name": q2.name, "replay": "vf.props.replays:c14_triclinic", "case": {}, "cls": {"kind": "misorientation datum depends on the order of the grains", "system": system}})
     sample(sess, obligation="misorientation datum", system=system, datum0=str(base[0][0].arg)[:200])
 
 
